@@ -28,8 +28,12 @@ fn configs() -> Vec<Cfg> {
     everything.push(HSpec::obs_end_tag("*"));
     let markers = marker_menu();
     let mut v = vec![Cfg::with(everything.clone()), Cfg::with(everything).strict(false).enc("windows-1252")];
-    for (_, hs) in markers {
-        v.push(Cfg::with(hs).strict(false));
+    for (i, (_, hs)) in markers.into_iter().enumerate() {
+        v.push(Cfg::with(hs.clone()).strict(false));
+        // the same insertions through the streaming entry points (element, end tag, text chunk)
+        if i < 3 {
+            v.push(Cfg::with(hs).strict(false).streaming(true).enc(if i == 1 { "windows-1252" } else { "UTF-8" }));
+        }
     }
     v.push(
         Cfg::with(vec![
@@ -374,6 +378,116 @@ mod inj {
                 for s in sels {
                     lol_html_selector_free(s);
                 }
+            }
+            // is_removed getters, user data of text chunks and doctypes, clearing end-tag handlers
+            {
+                use lol_html::html_content::{Doctype, EndTag, TextChunk};
+                use lolhtml::doctype::*;
+                use lolhtml::text_chunk::*;
+                unsafe extern "C" fn et(_t: *mut EndTag, ud: *mut c_void) -> RewriterDirective {
+                    let m = unsafe { &*(ud as *const Mutex<State>) };
+                    m.lock().unwrap().problems.push("an end-tag handler ran although the handlers were cleared".into());
+                    RewriterDirective::Continue
+                }
+                unsafe extern "C" fn et_ok(_t: *mut EndTag, ud: *mut c_void) -> RewriterDirective {
+                    let m = unsafe { &*(ud as *const Mutex<State>) };
+                    m.lock().unwrap().drops += 1000;
+                    RewriterDirective::Continue
+                }
+                unsafe extern "C" fn el2(el: *mut Element, ud: *mut c_void) -> RewriterDirective {
+                    unsafe {
+                        lol_html_element_add_end_tag_handler(el, et, ud);
+                        lol_html_element_add_end_tag_handler(el, et, ud);
+                        lol_html_element_clear_end_tag_handlers(el);
+                        lol_html_element_add_end_tag_handler(el, et_ok, ud);
+                    }
+                    RewriterDirective::Continue
+                }
+                unsafe extern "C" fn cm(c: *mut Comment, ud: *mut c_void) -> RewriterDirective {
+                    let m = unsafe { &*(ud as *const Mutex<State>) };
+                    unsafe {
+                        if lol_html_comment_is_removed(c) {
+                            m.lock().unwrap().problems.push("comment reported removed before remove()".into());
+                        }
+                        lol_html_comment_remove(c);
+                        if !lol_html_comment_is_removed(c) {
+                            m.lock().unwrap().problems.push("comment not reported removed after remove()".into());
+                        }
+                    }
+                    RewriterDirective::Continue
+                }
+                unsafe extern "C" fn tx(t: *mut TextChunk, ud: *mut c_void) -> RewriterDirective {
+                    let m = unsafe { &*(ud as *const Mutex<State>) };
+                    unsafe {
+                        if !lol_html_text_chunk_user_data_get(t).is_null() {
+                            m.lock().unwrap().problems.push("text chunk user data not NULL initially".into());
+                        }
+                        lol_html_text_chunk_user_data_set(t, 9 as *mut c_void);
+                        if lol_html_text_chunk_user_data_get(t) as usize != 9 {
+                            m.lock().unwrap().problems.push("text chunk user data not returned after set".into());
+                        }
+                        lol_html_text_chunk_user_data_set(t, std::ptr::null_mut());
+                        if !lol_html_text_chunk_user_data_get(t).is_null() {
+                            m.lock().unwrap().problems.push("text chunk user data reset to NULL is still set".into());
+                        }
+                        if lol_html_text_chunk_is_removed(t) {
+                            m.lock().unwrap().problems.push("text chunk reported removed before remove()".into());
+                        }
+                        lol_html_text_chunk_remove(t);
+                        if !lol_html_text_chunk_is_removed(t) {
+                            m.lock().unwrap().problems.push("text chunk not reported removed after remove()".into());
+                        }
+                    }
+                    RewriterDirective::Continue
+                }
+                unsafe extern "C" fn dt(d: *mut Doctype, ud: *mut c_void) -> RewriterDirective {
+                    let m = unsafe { &*(ud as *const Mutex<State>) };
+                    unsafe {
+                        if !lol_html_doctype_user_data_get(d).is_null() {
+                            m.lock().unwrap().problems.push("doctype user data not NULL initially".into());
+                        }
+                        lol_html_doctype_user_data_set(d, 5 as *mut c_void);
+                        if lol_html_doctype_user_data_get(d) as usize != 5 {
+                            m.lock().unwrap().problems.push("doctype user data not returned after set".into());
+                        }
+                        if lol_html_doctype_is_removed(d) {
+                            m.lock().unwrap().problems.push("doctype reported removed before remove()".into());
+                        }
+                        lol_html_doctype_remove(d);
+                        if !lol_html_doctype_is_removed(d) {
+                            m.lock().unwrap().problems.push("doctype not reported removed after remove()".into());
+                        }
+                    }
+                    RewriterDirective::Continue
+                }
+                let drops_before = st.lock().unwrap().drops;
+                let sel = lol_html_selector_parse(b"a".as_ptr() as *const c_char, 1);
+                let builder = lol_html_rewriter_builder_new();
+                lol_html_rewriter_builder_add_element_content_handlers(builder, sel, Some(el2), ud, None, null, None, null);
+                lol_html_rewriter_builder_add_document_content_handlers(builder, Some(dt), ud, Some(cm), ud, Some(tx), ud, None, null);
+                let r = lol_html_rewriter_build(builder, b"utf-8".as_ptr() as *const c_char, 5, lol_html::MemorySettings::new(), sink, ud, true);
+                let before = st.lock().unwrap().out.len();
+                let d2 = b"<!DOCTYPE html><a b=c>x<!--c--></a>";
+                let rc = lol_html_rewriter_write(r, d2.as_ptr() as *const c_char, d2.len());
+                let rc2 = lol_html_rewriter_end(r);
+                {
+                    let mut g = st.lock().unwrap();
+                    if rc != 0 || rc2 != 0 {
+                        g.problems.push("is_removed / user data scenario: write/end failed".into());
+                    }
+                    if g.drops != drops_before + 1000 {
+                        g.problems.push("the end-tag handler added after clear_end_tag_handlers did not run exactly once".into());
+                    }
+                    if &g.out[before..] != b"<a b=c></a>" {
+                        let got = lossy(&g.out[before..]);
+                        g.problems.push(format!("doctype, text and comment removed through the C API: output {got:?}, expected \"<a b=c></a>\""));
+                    }
+                    g.drops = drops_before;
+                    g.out.truncate(before);
+                }
+                lol_html_rewriter_free(r);
+                lol_html_rewriter_builder_free(builder);
+                lol_html_selector_free(sel);
             }
             // a handler that ignores a failing setter and then stops the rewriter: write() fails and
             // the last error is the rewriter's, not the stale setter error
